@@ -62,15 +62,27 @@ class Machine(Interp):
             if k is None:
                 src = self.ev(v, fr)
                 d = self.dict_merge(d, src)
-            else:
+            elif isinstance(d, PyDict):
                 ops.dict_set(d, self.ev(k, fr), self.ev(v, fr))
+            else:
+                d = d.m_with(self, self.ev(k, fr), self.ev(v, fr))      # model dict: functional update
         return d
 
     def dict_merge(self, d, src):
-        if isinstance(src, PyDict):
+        if isinstance(src, PyDict) and isinstance(d, PyDict):
             for k, v in ops.dict_items(src):
                 ops.dict_set(d, k, v)
             return d
+        if isinstance(d, PyDict) and not d.keys and hasattr(src, "m_copy"):
+            return src.m_copy(self)
+        if hasattr(d, "m_merge"):
+            return d.m_merge(self, src)
+        if isinstance(d, PyDict) and hasattr(src, "m_copy"):
+            r = src.m_copy(self)         # {k: v, **model}: the model's entries win
+            for k, v in ops.dict_items(d):
+                if not self.truth(r.m_contains(self, k)):
+                    r = r.m_with(self, k, v)
+            return r
         hook = self.spec.opaque_hooks.get("dict_merge")
         if hook:
             return hook(self, d, src)
